@@ -110,6 +110,11 @@ KNOWN = ("In a database with LLNL_AQUEOUS_MODEL_PARAMETERS, species WITHOUT -lln
          "any ionic strength, while BASIC DH_A reports the LLNL value)")
 
 
+# experiments only (e.g. against a tree that carries the candidate repair of KNOWN): assert rules R1-R3 for species without
+# -llnl_gamma in LLNL-type files too.  Never set in a normal run.
+_ASSERT_LLNL_DAVIES = bool(os.environ.get("VERIF_C16_ASSERT_LLNL_DAVIES"))
+
+
 def prepare(tier):
     lib.build("rel", ["libiphreeqc_rel.so"])
 
@@ -369,7 +374,7 @@ def check_ia(case, ctx):
                 excluded["excluded:H2O_or_e-"] = excluded.get("excluded:H2O_or_e-", 0) + 1
                 continue
             sp = db.species[s]
-            if case.get("assert_davies_in_llnl_file") and llnl is not None and sp.gamma_model[0] in ("davies", "neutral", "dh"):
+            if (case.get("assert_davies_in_llnl_file") or _ASSERT_LLNL_DAVIES) and llnl is not None and sp.gamma_model[0] in ("davies", "neutral", "dh"):
                 # the registered known-finding replay: the rule the documentation gives (R1-R3) at the reported constants
                 label, e = expected_lg(sp, None, mu, A, B, tc, tk)
             else:
@@ -399,6 +404,8 @@ def check_ia(case, ctx):
     classes += ["ia:" + t for t in sorted({i_bucket(m) for m in mus})]
     for r in case["react"]:
         classes.append("ia:react=" + r["kind"])
+    if _ASSERT_LLNL_DAVIES:
+        classes.append("EXPERIMENT:llnl_file_davies_species_asserted")
     for k, n in excluded.items():
         ctx.event("ia:" + k, n)
     for k, n in models.items():
